@@ -10,6 +10,10 @@
 :- use_module(library(files)).
 
 :- dynamic(c34_fact/1).
+:- discontiguous(c34_build/4).
+:- discontiguous(c34_leaf/2).
+:- discontiguous(c34_size/3).
+:- discontiguous(c34_op/6).
 
 % c34_build(Shape, N, Leaf, T)
 c34_build(list, N, Leaf, T) :- c34_list(N, Leaf, T).          % [1,...,N|Leaf]  (Leaf = [] for the ground term)
@@ -106,3 +110,51 @@ c34_op(univ, _, _, T, _, V) :- T =.. L, length(L, V).
 c34_op(length, _, _, T, _, V) :- length(T, V).
 c34_op(sort, _, _, T, _, V) :- sort(T, S), length(S, V).
 c34_op(append, _, _, T, _, V) :- append(T, [x], T2), length(T2, V).
+
+% ---------------------------------------------------------------------------
+% shapes with massive sharing: the same compound cell referenced N times
+%   shlist   [X,X,...,X]            X = f(a,b), one cell
+%   shlist2  [X,Y,X,Y,...]          X, Y two separately built f(a,b)
+%   shlist3  [X,X,...,X]            X = [p,q,r], one cell
+%   shchain  g(X,g(X,...g(X,e)))    X = f(a,b), one cell
+c34_build(shlist, N, _, T) :- X = f(a,b), c34_shlist(N, X, X, [], T).
+c34_build(shlist2, N, _, T) :- X = f(a,b), c34_mk(Y), c34_shlist(N, X, Y, [], T).
+c34_build(shlist3, N, _, T) :- X = [p,q,r], c34_shlist(N, X, X, [], T).
+c34_build(shchain, N, _, T) :- X = f(a,b), c34_shchain(N, X, e, T).
+
+c34_mk(f(A,B)) :- A = a, B = b.
+
+c34_leaf(shlist, []).
+c34_leaf(shlist2, []).
+c34_leaf(shlist3, []).
+c34_leaf(shchain, e).
+
+c34_shlist(0, _, _, L, L) :- !.
+c34_shlist(K, X, Y, L0, L) :- K1 is K - 1, c34_shlist(K1, Y, X, [X|L0], L).
+
+c34_shchain(0, _, T, T) :- !.
+c34_shchain(K, X, T0, T) :- K1 is K - 1, c34_shchain(K1, X, g(X,T0), T).
+
+c34_size(shlist, T, N) :- length(T, N).
+c34_size(shlist2, T, N) :- length(T, N).
+c34_size(shlist3, T, N) :- length(T, N).
+c34_size(shchain, T, N) :- c34_unchain(T, 0, N).
+
+c34_unchain(T, N0, N) :- ( nonvar(T), T = g(_, T1) -> N1 is N0 + 1, c34_unchain(T1, N1, N) ; N = N0 ).
+
+% comparing / ordering operations (the twin is built the same way, with its own shared cell)
+c34_op(neq, Sh, N, T, _, V) :- c34_build(Sh, N, _, T2), ( T \== T2 -> V = true ; V = false ).
+c34_op(lt, Sh, N, T, _, V) :- c34_build(Sh, N, _, T2), ( T @< T2 -> V = true ; V = false ).
+c34_op(eqself, _, _, T, _, V) :- ( T == T -> V = true ; V = false ).
+c34_op(unify2, Sh, N, T, _, V) :- c34_build(Sh, N, _, T2), ( T = T2 -> V = true ; V = false ).
+c34_op(copyeq, _, _, T, _, V) :- copy_term(T, T2), ( T == T2 -> V = true ; V = false ).
+c34_op(keysort, _, _, T, _, V) :-
+    c34_pairs(T, 1, Ps), keysort(Ps, S), length(S, L),
+    S = [_-First|_], c34_last(S, _-Last),
+    V = k(L, First, Last).
+
+c34_pairs([], _, []).
+c34_pairs([X|Xs], I, [X-I|Ps]) :- I1 is I + 1, c34_pairs(Xs, I1, Ps).
+
+c34_last([X], X) :- !.
+c34_last([_|Xs], X) :- c34_last(Xs, X).
